@@ -23,6 +23,10 @@ for f, lst in sorted(funs.items()):
         for k, v in o.items():
             if isinstance(v, str):
                 new = v[:-1] + ('1' if v[-1] != '1' else '2'); edits.append((k, f'"{k}":"{v}"', f'"{k}":"{new}"'))
+            elif isinstance(v, list) and v and isinstance(v[0], str):      # an array of numerals: first and last element
+                for pos in sorted({0, len(v) - 1}):
+                    w = list(v); w[pos] = w[pos][:-1] + ('1' if w[pos][-1] != '1' else '2')
+                    edits.append((f'{k}[{pos}]', f'"{k}":' + json.dumps(v, separators=(',', ':')), f'"{k}":' + json.dumps(w, separators=(',', ':'))))
             elif isinstance(v, int):
                 new = (-1 - v) if k == 'ret' else v + 1; edits.append((k, f'"{k}":{v}', f'"{k}":{new}'))
         # only the part after "o": is edited: make the pattern unique by anchoring on the output object
@@ -32,6 +36,9 @@ for f, lst in sorted(funs.items()):
             l2 = head + '"o":' + tail.replace(old, new, 1); fn2 = os.path.join(out, f'{f}_{idx}_{k}.ndjson'); open(fn2, 'w').write(reset + line)
             # bindtest replaces the first occurrence in the whole line: give it the full line as the pattern
             r = subprocess.run([os.path.join(here, 'bindtest.py'), fn2, '2@' + line.rstrip('\n') + '=>' + l2.rstrip('\n')], capture_output=True, text=True).stdout.strip().splitlines()[-1]
-            ok = 'rejected at line 2' in r; bad += not ok; n += 1
+            ok = 'rejected at line 2' in r; n += 1
+            if not ok and k == 'ret' and o.get('m') == '0' and 'ACCEPTED' in r:
+                print(f'{f} #{idx} output ret: accepted as the contract says (the value at the negative point is zero: either flag is allowed)'); continue
+            bad += not ok
             print(f'{f} #{idx} output {k} ({len(old)} chars):', 'rejected at line 2' if ok else 'NOT REJECTED: ' + r[-80:])
 print(f'{n} corruptions, ' + ('all rejected' if not bad else f'{bad} NOT rejected')); sys.exit(1 if bad else 0)
